@@ -488,10 +488,11 @@ def discharge_one(ob, timeout_s=10.0, use_cvc5=True):
         return {"verdict": "proved", "backend": "z3", "time": time.time() - t0}
     if r == z3.sat:
         return {"verdict": "refuted", "backend": "z3", "time": time.time() - t0, "model": s.model()}
-    m = bounded_refute(ob, timeout_s)
-    if m is not None:
-        return {"verdict": "refuted", "backend": "z3 (quantifiers expanded on ranges within [0,2))",
-                "time": time.time() - t0, "model": m}
+    for K in (2, 3):
+        m = bounded_refute(ob, timeout_s, K)
+        if m is not None:
+            return {"verdict": "refuted", "backend": f"z3 (quantifiers expanded on ranges within [0,{K}))",
+                    "time": time.time() - t0, "model": m}
     return {"verdict": "unknown", "backend": "z3+cvc5", "time": time.time() - t0, "reason": reason}
 
 
